@@ -118,7 +118,7 @@ def tab_text(t):
 def run_tab(t):
     """Returns (ok, [names of the tabulations that fail], raw)."""
     os.makedirs(vlib.GEN, exist_ok=True)
-    p = os.path.join(vlib.GEN, "tab_C13.v")
+    p = os.path.join(vlib.GEN, "tab_C13_p%d.v" % os.getpid())
     open(p, "w").write(tab_text(t))
     rc, out = vlib.sh(["coqc", "-Q", ".", "Verif", p], cwd=vlib.COQ, timeout=600)
     m = re.search(r"T\s*=\s*\(\s*(true|false)\s*,\s*(true|false)\s*,\s*(true|false)\s*,\s*(true|false)\s*\)", out.replace("\n", " "))
